@@ -46,7 +46,12 @@ let handle = function
   | ["enc_hdr_new"; tag; n] -> hex_of_bytes (Framing.enc_header_new (n_of_int (int_of_string tag)) (n_of_int (int_of_string n)))
   | ["enc_hdr_old"; tag; n] -> hex_of_bytes (Framing.enc_header_old (n_of_int (int_of_string tag)) (n_of_int (int_of_string n)))
   | ["emit_lit"; k; data] ->
-    hex_of_bytes (Framing.emit_partial (n_of_int 11) (n_of_int (int_of_string k)) lit_h (bytes_of_hex data))
+    let kk = n_of_int (int_of_string k) and d = bytes_of_hex data in
+    let spec = Framing.emit_partial (n_of_int 11) kk lit_h d in
+    (* the staged producer of C17_partial_writer_machine_is_spec, read with varying request sizes *)
+    let req (i : BinNums.coq_N) : BinNums.coq_N = n_of_int (1 + ((int_of_n i) * 7919) mod 2039) in
+    let (mo, oc) = PartialWriter.pw_run (n_of_int 11) kk lit_h req d in
+    if oc = Emitter.EClean && mo = spec then hex_of_bytes spec else "MODEL-SPLIT emit_lit machine /= specification"
   | ["emit_lit_fixed"; _; data] ->
     hex_of_bytes (Framing.emit_fixed (n_of_int 11) lit_h (bytes_of_hex data))
   | ["emit_lit_comp"; k; data] ->
